@@ -96,3 +96,13 @@ def contract_free(fn):
     ns = {}
     exec(compile(tree, f'<contract-free copy of {fn.__module__}.{fn.__name__}>', 'exec'), mod.__dict__, ns)  # noqa: S102
     return ns[fd.name]
+
+
+def concrete(value):
+    """The plain Python value of a (possibly CrossHair-symbolic) value - for handing it to C code (lxml, struct ...), which
+    rejects CrossHair's proxy types. Outside CrossHair: the value itself."""
+    try:
+        from crosshair.core import deep_realize
+    except ImportError:
+        return value
+    return deep_realize(value)
